@@ -47,3 +47,60 @@ Theorem C06_sequence_numbers_increase : forall c ops,
   SeqInv (fold_left (fun st op => snd (write_blocks c st (fst op) (snd op))) ops init_state).
 Proof. exact sequence_numbers_history. Qed.
 Print Assumptions C06_sequence_numbers_increase.
+
+(* ---- embedded attributes.  Gen/AttrTables.v is regenerated on every run from the attribute-writing
+   code of the current source (digital_rf_write_metadata, both branches of digital_rf_handle_metadata,
+   recreate_properties_file); Model/Attrs.v gives the tables their meaning.  The statements hold for
+   every writer object e (every rate, cadence, element type, flag, session). *)
+From Coq Require Import String.
+From DRF Require Import Model.Attrs Gen.AttrTables Proofs.AttrsProofs.
+
+(* every attribute of drf_properties.h5 is repeated in every data file: same name, type and value *)
+Theorem C06_file_attributes_repeat_channel_properties : forall e n v,
+  lookup n (write_table e prop_table) = Some v -> lookup n (write_table e file_table) = Some v.
+Proof. exact file_attrs_repeat_properties. Qed.
+Print Assumptions C06_file_attributes_repeat_channel_properties.
+
+(* and they are the channel parameters: the five element-type queries, both cadences, the rate
+   fraction, the complex / subchannel / continuous flags, with the documented integer types *)
+Theorem C06_file_shows_channel_parameters : forall e n v,
+  lookup n (spec_numeric e) = Some v -> lookup n (write_table e file_table) = Some v.
+Proof. exact file_shows_parameters. Qed.
+Print Assumptions C06_file_shows_channel_parameters.
+
+(* epoch, time description and format version are literals, the same in the properties file and in
+   every data file whatever the writer object; the epoch is the Unix epoch *)
+Theorem C06_constant_attributes : forall n, In n const_names ->
+  exists s, forall e, lookup n (write_table e prop_table) = Some (VS s) /\
+                      lookup n (write_table e file_table) = Some (VS s).
+Proof. exact constants_present. Qed.
+Print Assumptions C06_constant_attributes.
+
+Theorem C06_epoch : forall e,
+  lookup "epoch"%string (write_table e prop_table) = Some (VS "1970-01-01T00:00:00Z"%string).
+Proof. exact epoch_is_unix_epoch. Qed.
+Print Assumptions C06_epoch.
+
+(* each file carries the session's uuid and start timestamp and the writer's file sequence number
+   (whose strict increase is C06_sequence_numbers_increase) *)
+Theorem C06_session_attributes : forall e,
+  lookup "sequence_num"%string (write_table e file_table) = Some (VI TInt (fld e "present_seq"%string)) /\
+  lookup "uuid_str"%string (write_table e file_table) = Some (VS (sfld e "uuid_str"%string)) /\
+  lookup "init_utc_timestamp"%string (write_table e file_table)
+    = Some (VI TULLong (fld e "init_utc_timestamp"%string)) /\
+  lookup "computer_time"%string (write_table e file_table) = Some (VI TULLong (clock e)).
+Proof. exact file_session_attributes. Qed.
+Print Assumptions C06_session_attributes.
+
+(* a lost drf_properties.h5 regenerated from ANY data file is identical to the original *)
+Theorem C06_regenerated_properties_identical : forall e,
+  exists r, regenerate regen_table (write_table e file_table) = Some r /\
+            forall n, lookup n r = lookup n (write_table e prop_table).
+Proof. exact regenerated_properties_identical. Qed.
+Print Assumptions C06_regenerated_properties_identical.
+
+Theorem C06_attribute_names_unique :
+  nodupb (names file_table) = true /\ nodupb (names prop_table) = true /\
+  nodupb (map c_name compare_table) = true /\ nodupb (map fst regen_table) = true.
+Proof. exact attribute_names_unique. Qed.
+Print Assumptions C06_attribute_names_unique.
